@@ -162,6 +162,9 @@ def run(rep, tier, rng):
     import glob, json, os
     for pth in sorted(glob.glob(os.path.join(C.VERIF, "corpus", PROP, "*.json"))):
         r = json.load(open(pth)).get("replay", {})
+        if r.get("large"):
+            nbytes, verdict = large_predicate(H, r["large"], fails)
+            rep.count(("large", tuple(sorted(r["large"].items()))), nontrivial=(verdict == "ok"), kind="large:%s:%s" % (r["large"]["kind"], verdict))
         if r.get("case"):
             case = K.unjson(r["case"])
             cases.append(case)
